@@ -1,16 +1,17 @@
 //! Per-property plans: profile, schedule, oracle and tier sizes.
 
 use crate::gen::{self, Fam, Profile};
-use crate::oracle::{HistMode, History, Oracle};
+use crate::oracle::{Converge, HistMode, History, Oracle};
 use crate::rng::Rng;
 use crate::run::{Plan, Sched, Special};
 use crate::world::{Init, InitialWb};
 
-pub const CLAIMED: [&str; 3] = ["C01", "C02", "C04"];
+pub const CLAIMED: [&str; 4] = ["C01", "C02", "C03", "C04"];
 
 pub fn runs_for(prop: &str, tier: &str) -> u64 {
     let (q, t) = match prop {
         "C01" | "C02" => (40_000, 1_500_000),
+        "C03" => (30_000, 1_000_000),
         "C04" => (40_000, 1_000_000),
         _ => (10_000, 200_000),
     };
@@ -86,7 +87,7 @@ pub fn plan(prop: &str, rng: &mut Rng, hash_key: u64) -> Plan {
         Some("0") => false,
         _ => rng.chance(0.7),
     };
-    let init = base_init(rng, hash_key);
+    let mut init = base_init(rng, hash_key);
     let mut profile = base_profile(rng, guards);
     let mut sched = Sched::default();
     match prop {
@@ -98,6 +99,13 @@ pub fn plan(prop: &str, rng: &mut Rng, hash_key: u64) -> Plan {
         "C04" => {
             sched.p_bad = *rng.pick(&[0.15, 0.3, 0.5]);
         }
+        "C03" => {
+            init.followers = rng.range(1, 2) as usize;
+            sched.p_flush = *rng.pick(&[1.0, 0.5, 0.1, 0.0]);
+            sched.p_deliver = *rng.pick(&[1.0, 0.5, 0.2]);
+            profile.p_undo = 0.2;
+            profile.p_redo = 0.12;
+        }
         _ => {}
     }
     Plan { init, profile, sched }
@@ -108,6 +116,7 @@ pub fn oracle_for(prop: &str) -> Box<dyn Oracle> {
         "C01" => Box::new(History::new(HistMode::Undo)),
         "C02" => Box::new(History::new(HistMode::Redo)),
         "C04" => Box::new(History::new(HistMode::Fail)),
+        "C03" => Box::new(Converge::new()),
         _ => Box::new(History::new(HistMode::Undo)),
     }
 }
@@ -123,6 +132,7 @@ pub fn rule_for(prop: &str) -> String {
     match prop {
         "C01" => "seeded histories of user-model operations (swarm-selected families, 3-40 events, undo 15%/redo 8%) on one editing session; a case is non-trivial iff at least one undo of a recorded operation was compared against the history-cursor model; distinct = distinct (event-kind sequence hash, final snapshot hash)".into(),
         "C02" => "as C01 with undo 25%/redo 20%; non-trivial iff at least one redo of an undone operation was compared against the cursor model".into(),
+        "C03" => "seeded histories (C01 mix, undo 20%/redo 12%) on a primary session with 1-2 follower sessions loaded from the same initial bytes; the outgoing queue is cut into batches by a per-run flush probability (after every event / 0.5 / 0.1 / only at the end) and delivered with a per-run lag; followers have other hash seeds than the primary; non-trivial iff at least one comparison primary vs follower was made at a quiescent point after at least one batch was applied".into(),
         "C04" => "seeded histories with injected invalid calls (operation kind x invalid-argument class table, Appendix A); non-trivial iff at least one call that returned Err was compared (state, undo/redo lengths) before/after".into(),
         _ => "seeded histories".into(),
     }
